@@ -20,7 +20,7 @@ RULE = ('generated projects x generated --privacy rule lists (exact names and pa
         'the private marker. Distinct: (project, rule list); non-trivial: at least one hidden and one private object.')
 ASSUME = ['a plain textual mention of a hidden name in source-derived text is not a trace; links, anchors, entries, records and files are',
           'Module.privacyClass forces __main__ to PRIVATE by design']
-DECIDING = {'hidden_objects_checked': 300, 'private_entries_checked': 2000, 'links_scanned': 20000, 'rule_lists': 80, 'hidden_link_targets_checked': 300}
+DECIDING = {'privacy_vs_rule_list': 3000, 'hidden_objects_checked': 300, 'private_entries_checked': 2000, 'links_scanned': 20000, 'rule_lists': 80, 'hidden_link_targets_checked': 300}
 CPU_S = 1200
 PER = 4
 
@@ -44,6 +44,20 @@ def judge(res: core.Res, run: _site.Run, label: str, w: Dict[str, Any]) -> None:
     from pydoctor import model
     out = run.output
     system = run.system
+    # what the rule list says, read with the manual's rules (vf/ref/glob_ref.py), not with the model's own answer
+    from vf.ref import glob_ref
+    rules = []
+    for a in w.get('args', []):
+        if isinstance(a, str) and a.startswith('--privacy='):
+            lvl, _, pat = a[len('--privacy='):].partition(':')
+            rules.append((lvl.strip().upper(), pat))
+    for o in system.allobjects.values():
+        if ' ' in o.fullName() or (isinstance(o, model.Module) and o.name == '__main__'):
+            continue
+        res.c('privacy_vs_rule_list')
+        exp = glob_ref.ref_privacy(o.fullName(), o.name, rules)
+        if (exp == 'HIDDEN') != (o.privacyClass is model.PrivacyClass.HIDDEN) or (exp == 'PRIVATE') != (o.privacyClass is model.PrivacyClass.PRIVATE):
+            res.v('C12:privacy-differs-from-rule-list', f'{label}: {o.fullName()} is {o.privacyClass.name}, the rule list {[f"{a}:{b}" for a, b in rules]} says {exp}', obj=o.fullName(), **w)
     hidden = [o for o in system.allobjects.values() if not o.isVisible]
     private = [o for o in system.allobjects.values() if o.isVisible and o.privacyClass is model.PrivacyClass.PRIVATE]
     visible_names = {o.fullName() for o in system.allobjects.values() if o.isVisible}
